@@ -154,6 +154,9 @@ func (g *gen) randomMats(nt int) []project.PMat {
 	if left > 0 {
 		mats[len(mats)-1].N += left
 	}
+	if len(mats) > 0 && mats[len(mats)-1].N > 1 && g.r.Intn(4) == 0 {
+		mats[len(mats)-1].N-- // ranges may account for fewer primitives than there are
+	}
 	return mats
 }
 
